@@ -42,6 +42,10 @@ pub trait Flavor: 'static {
     fn send_node(f: &Self::SF) -> NodeSnap;
     fn recv_node(f: &Self::RF) -> NodeSnap;
     fn stream_node(s: &Self::St) -> Option<NodeSnap>;
+    /// close() through the stream object, where the flavour has one
+    fn close_stream(_s: &Self::St) -> Option<CloseStatus> {
+        None
+    }
     fn debug(c: &Self::Chan) -> String;
     fn send_node_debug(f: &Self::SF) -> String;
     fn recv_node_debug(f: &Self::RF) -> String;
@@ -195,6 +199,9 @@ impl<M: RawMutex + std::fmt::Debug + 'static, A: RingBuf<Item = Tag> + IsGrowing
     }
     fn stream_node(s: &Self::St) -> Option<NodeSnap> {
         s.verif_node()
+    }
+    fn close_stream(s: &Self::St) -> Option<CloseStatus> {
+        Some(s.close())
     }
     fn senders(c: &Self::Chan) -> usize {
         c.tx.len()
@@ -630,6 +637,9 @@ impl<F: Flavor> System for Sys<F> {
             if F::SHARED && has_rx {
                 v.push(Op::Close(1));
             }
+            if F::SHARED && self.st.is_some() {
+                v.push(Op::Close(2));
+            }
         }
         if F::SHARED {
             let (s, r) = (F::senders(self.chan()), F::receivers(self.chan()));
@@ -1001,7 +1011,13 @@ impl<F: Flavor> System for Sys<F> {
             },
             Op::Close(side) => {
                 self.close_calls += 1;
-                match lib(|| F::close(self.chan(), side)) {
+                let r = if side == 2 {
+                    let st = self.st.as_ref().expect("stream");
+                    lib(|| F::close_stream(st.st.get()).expect("flavour has no stream close"))
+                } else {
+                    lib(|| F::close(self.chan(), side))
+                };
+                match r {
                     Err(p) => out.v("C01", "panic", format!("close() panicked: {}", p)),
                     Ok(st) => {
                         out.o(&format!("{:?}", st));
